@@ -460,6 +460,14 @@ class ExprMixin(object):
             b = self.adapt(b, a.ty)
         if isinstance(op, ast.Mod) and a.ty is STR:
             self.notes.append("% string formatting is an uninterpreted function of its arguments")
+            if isinstance(getattr(node, "left", None), ast.Constant) and isinstance(node.left.value, str):
+                # constant format string: a deterministic (uninterpreted) function of the arguments
+                items = b.items if (b.items is not None and b.ty is not STATIC) else ([b] if b.ty is not STATIC else b.items)
+                try:
+                    args2 = [i if i.ty in (INT, STR, BOOL, PY) else core.to_py(i) for i in items]
+                    return [(st, core.ufun("fmt_" + core._mangle(node.left.value)[:24], args2, STR))]
+                except OutsideSubset:
+                    pass
             return [(st, fresh(STR, "fmt"))]
         if a.ty in (INT, BOOL) and b.ty in (INT, BOOL):
             x, y = coerce(a, INT).t, coerce(b, INT).t
